@@ -20,6 +20,11 @@ def World.userDeleteHard (w : World) (u : Uid) : World :=
   { w with
     store := (w.store.filter (fun (r : TopicRow) => !(u ≠ "" && r.owner = u))).map (fun (r : TopicRow) =>
       { r with subs := r.subs.filter (·.user ≠ u), csubs := r.csubs.filter (·.user ≠ u), dellog := r.dellog.filter (·.forUser ≠ u) }),
+    -- (the statement which deletes the subscriptions to the owned topics joins on the topic's own name: the rows of channel readers,
+    -- stored under the `chn` spelling, are left behind)
+    orphans := (w.orphans.map (fun (r : TopicRow) => { r with csubs := r.csubs.filter (·.user ≠ u) })) ++
+      ((w.store.filter (fun (r : TopicRow) => (u ≠ "" && r.owner = u) && !(r.csubs.filter (·.user ≠ u)).isEmpty)).map
+        (fun (r : TopicRow) => { r with subs := [], msgs := [], dellog := [], csubs := r.csubs.filter (·.user ≠ u) })),
     users := w.users.filter (·.uid ≠ u),
     meSubs := w.meSubs.filter (·.user ≠ u),
     fndSubs := w.fndSubs.filter (·.user ≠ u),
